@@ -441,7 +441,7 @@ func isNil(v any) bool {
 // checkNet applies the C33 oracle to one input. Returns whether it decoded.
 //
 //	(1) no panic
-//	(2) allocation delta <= 256*len(input) + 64 KiB
+//	(2) allocation delta <= 256*len(input) + 128 KiB
 //	(3) a message or an error (never neither)
 //	(4) if it decodes: e1 = encode(decode(x)) must exist, decode(e1) must
 //	    succeed and encode again to e1 (compared as bytes, so nil-vs-empty
@@ -472,7 +472,7 @@ func (c *ctx) checkNet(p *netProto, m mutant) bool {
 		return false
 	}
 	if excess > 0 {
-		c.report("alloc", "alloc-exceeds-linear-bound:"+p.name, "%s: %s %s: input %s (%d bytes): decoding allocated %d bytes, bound 256*len+64KiB = %d (err=%v)",
+		c.report("alloc", "alloc-exceeds-linear-bound:"+p.name, "%s: %s %s: input %s (%d bytes): decoding allocated %d bytes, bound 256*len+128KiB = %d (err=%v)",
 			p.name, m.kind, m.detail, hx(m.data), len(m.data), exact, 256*len(m.data)+allocFloor, err)
 	}
 	if err != nil {
